@@ -35,7 +35,7 @@ ASSUMPTIONS = [
     'the catch-all registry keys, so such cells are generated without them',
     'class-based targets need an on_<event> attribute to be invoked',
 ]
-BUDGET = {'quick': 3000, 'thorough': 150000}
+BUDGET = {'quick': 12000, 'thorough': 150000}
 FLOOR = {'quick': 800, 'thorough': 20000}
 
 KINDS = ['h', 'hc', 'sh', 'sc', 'cls', 'scls']
